@@ -584,11 +584,18 @@ def check(ctx):
                     cols[k.args[1]] = None
     okw = cols == {"x": ("x",), "y": ("y",), "z": ("z",), "qw": ("qw",),
                    "qx": ("qx",), "qy": ("qy",), "qz": ("qz",)}
-    ctx.ob("C06.5", rt.func, okw,
-           "DataFrame columns x y z qw qx qy qz carry the like-named "
-           "trajectory columns" if okw else
-           f"trajectory_to_df column contents: {cols}",
-           key="C06.5:pandas:to_df")
+    if not okw and (not cols or None in cols.values()):
+        # the column table is not a literal {name: traj column} dictionary
+        # (dict(zip(names, array.T)), a frame built column by column ...)
+        ctx.undecidable("C06.5", rt.func, f"trajectory_to_df: column "
+                        f"contents not read from a literal dictionary: "
+                        f"{fmt(dfc)[:120]}")
+    else:
+        ctx.ob("C06.5", rt.func, okw,
+             "DataFrame columns x y z qw qx qy qz carry the like-named "
+             "trajectory columns" if okw else
+             f"trajectory_to_df column contents: {cols}",
+             key="C06.5:pandas:to_df")
     okidx = idx is not None and any(a is tm.attr(traj, "timestamps")
                                     for a in tm.strip_ite(idx))
     ctx.ob("C06.5", rt.func, okidx, "DataFrame index = timestamps",
@@ -597,7 +604,10 @@ def check(ctx):
     sel = lambda ks: tm.call(tm.attr(tm.sub(df, T("list", *[const(k) for k
                                                             in ks])),
                                      "to_numpy"), (), ())
-    alts = tm.strip_ite(rf.ret)
+    # (column lists given as named module constants are their values)
+    rf_ret = rf.ret.map(lambda x: x.args[1] if (
+        x.op == "named" and x.args[1].op in ("list", "tuple")) else None)
+    alts = tm.strip_ite(rf_ret)
     okr = bool(alts) and all(
         a.op == "call" and a.args[1][:2] == (sel(XYZ), sel(WXYZ))
         for a in alts) and any(
@@ -851,16 +861,32 @@ def _bag(ctx, prog):
                 x.op == "attr" and x.args[1] == "nanosec"
                 for x in e.data["args"][0].walk())]
     ok = False
-    if apps:
-        v = apps[0].data["args"][0]
-        ok = v.op == "binop" and v.args[0] == "Add" and any(
+
+    def reassembled(v: T) -> bool:
+        return v.op == "binop" and v.args[0] == "Add" and any(
             x.op == "attr" and x.args[1] == "sec" for x in v.args[1].walk()) \
             and any(tm.is_const(x) and x.args[1] == 1e-9
                     for x in v.args[2].walk())
-    ctx.ob("C06.6", apps[0] if apps else g, ok,
-           "bag reader: t = sec + nanosec * 1e-9 (reciprocal constant)"
-           if ok else "bag reader does not reassemble sec + nanosec * 1e-9",
-           key="C06.6:bag:reassemble")
+    if apps:
+        ok = reassembled(apps[0].data["args"][0])
+    else:
+        # the stamps built by a comprehension / helper: the value that
+        # mentions `.nanosec` anywhere in what the reader returns
+        cands = [x for x in rg.ret.walk() if x.op == "binop" and any(
+            y.op == "attr" and y.args[1] == "nanosec" for y in x.walk())]
+        tops = [x for x in cands if not any(
+            x is not y and any(z is x for z in y.walk()) for y in cands)]
+        if tops:
+            ok = all(reassembled(x) for x in tops)
+        else:
+            ctx.undecidable("C06.6", g, "bag reader: no value built from "
+                            "`.nanosec` found in what is returned")
+            ok = None
+    if ok is not None:
+        ctx.ob("C06.6", apps[0] if apps else g, ok,
+             "bag reader: t = sec + nanosec * 1e-9 (reciprocal constant)"
+             if ok else "bag reader does not reassemble sec + nanosec * 1e-9",
+             key="C06.6:bag:reassemble")
     fr = [e for e in rg.of_kind("call") if (e.data.get("name") or "")
           .endswith("PoseTrajectory3D")]
     ok = bool(fr) and any(
